@@ -1218,7 +1218,14 @@ def after_loop(f, E, acc_after):
     I = PastLoop(f, E.B, combinators=True)
     I.stop_at, I.acc_after = E.loop, acc_after
     env = {b: (INPUT if v[0] == 'param' else v) for b, v in I.param_env().items()}
-    return [o.val for o in I.ev(E.B.root, absx.St(env)) if o.kind in ('val', 'ret') and ('loop-done',) in o.st.ev]
+    outs = [o for o in I.ev(E.B.root, absx.St(env)) if o.kind in ('val', 'ret') and ('loop-done',) in o.st.ev]
+    # a value that was written to after the loop is not what the loop collected: ('written-after-loop', the method)
+    def written(o):
+        tail = o.st.ev[o.st.ev.index(('loop-done',)):]
+        ws = [e[1].rsplit('::', 1)[-1] for e in tail if e[0] == 'call' and e[1].rsplit('::', 1)[-1] in VEC_WRITES + ('clear', 'truncate', 'pop', 'remove')
+              and ('alloc::vec::Vec' in e[1] or 'alloc::string::String' in e[1])]
+        return ('written-after-loop', ws[0]) if ws else None
+    return [written(o) or o.val for o in outs]
 
 def check_tail(ctx, f, E, name):
     """E4: after the loop the collected bytes are what is returned (as an owned string) whenever output was started."""
@@ -1230,7 +1237,8 @@ def check_tail(ctx, f, E, name):
     # the collected octets as a string: a String is returned as it is (it holds these very octets); a Vec<u8> goes through
     # String::from_utf8, which keeps the octets (or fails)
     ok = bool(r1) and all(v[0] == 'ctor' and v[1] == 'Cow::Owned' and (v[2] == (('param', 'out'),) or absx.leaves(v, lambda x: x == ('param', 'out')) and 'from_utf8' in str(v)) for v in r1)
-    ctx.add('E4.owned-when-escaped', name, loc(where), ok, 'with escapes the function does not return the collected output')
+    ctx.add('E4.owned-when-escaped', name, loc(where), ok, 'with escapes the function does not return the collected output as an owned string: %s' % (
+        ['the output is written to after the loop (%s)' % v[1] if v[0] == 'written-after-loop' else 'returns ' + absx.fmt(v)[:80] for v in r1][:3] or 'no path returns'))
     if E.lazy:
         r0 = after_loop(f, E, {b: ('ctor', 'None', ()) if ty in T_LAZY else ('param', 'out') for b, ty in E.accs})
         ctx.add('E4.unchanged-when-nothing-escaped', name, loc(where), bool(r0) and all(v == INPUT for v in r0),
